@@ -18,11 +18,21 @@ Proof. unfold std_question_matches. destruct t, c, n; cbn; intuition congruence.
 (* ---------------------------------------------------------------- C12: the filter *)
 (* a datagram is handed to the caller only if it has the query's id and its single question has
    the asked type, class and (case-insensitively) name *)
+(* the_question succeeds only when exactly one question is left to read *)
+Lemma the_question_single msg as_ref r r' o :
+  rd_question msg true as_ref r = (r', Ok o) -> r_done r = false /\ questions_left (r_tr r) = Ok 1.
+Proof.
+  unfold rd_question. destruct (r_done r); [intro H; inversion H|].
+  destruct (questions_left (r_tr r)) as [left| | | | |]; try (intro H; inversion H; fail).
+  destruct (q_not_single left) eqn:Es; [intro H; inversion H|].
+  intros _. split; [reflexivity|]. f_equal. unfold q_not_single in Es. lia.
+Qed.
+
 Theorem accept_sound std id qname qtype qclass d fl :
   accept_datagram std id qname qtype qclass d = Ok (Some fl) ->
   lenN d <= 65535 /\
   exists r1 hd n, rd_header d (mkReader (c_new d) tr_default false) = (r1, Ok (OHeader hd)) /\
-    h_id hd = id /\ fl = h_flags hd /\ h_qd hd = 1 /\
+    h_id hd = id /\ fl = h_flags hd /\ questions_left (r_tr r1) = Ok 1 /\
     snd (rd_question d true false r1) = Ok (OQuestion n qtype qclass) /\ name_eq_str n qname = true.
 Proof.
   unfold accept_datagram, reader_new. destruct (msg_too_long (lenN d)) eqn:Et; [discriminate|].
@@ -42,19 +52,8 @@ Proof.
   apply N.eqb_eq in H1. apply N.eqb_eq in H2. subst qt qc.
   assert (Hfl : fl = h_flags h).
   { destruct std; [destruct (std_question_matches _ _ _)|destruct (async_question_matches _ _ _)]; inversion H; reflexivity. }
-  repeat split; try assumption; try reflexivity.
-  (* exactly one question: the_question's gate *)
-  unfold rd_question in Eq.
-  assert (Hd : r_done r1 = false).
-  { unfold rd_header, latch in Eh. destruct (run _ (read_header d)) as [r0' h0]. destruct h0; inversion Eh; subst; reflexivity. }
-  rewrite Hd in Eq.
-  destruct (questions_left (r_tr r1)) as [left| | | | |] eqn:El; try (inversion Eq; fail).
-  destruct (q_not_single left) eqn:Es; [inversion Eq|].
-  assert (left = 1) by (unfold q_not_single in Es; lia). subst left.
-  (* the tracker was set from this header and nothing was read yet *)
-  unfold rd_header, latch in Eh. destruct (run _ (read_header d)) as [r0' h0]. destruct h0; inversion Eh; subst. clear Eh.
-  unfold questions_left, left, checked_sub in El. cbn in El.
-  destruct (0 <=? h_qd h); inversion El. lia.
+  destruct (the_question_single _ _ _ _ _ Eq) as [_ Hq].
+  repeat split; try assumption; try reflexivity. rewrite Eq. reflexivity.
 Qed.
 
 (* a rejected datagram never fails the query: the filter returns "continue", not an error *)
@@ -93,8 +92,29 @@ Qed.
 
 (* ---------------------------------------------------------------- C13: strategy *)
 (* 0 = Udp (default), 1 = Tcp, 2 = NoTcp *)
+Definition strip_flags (udp : res (list byte * N)) : res (list byte) :=
+  match udp with
+  | Ok (d, _) => Ok d | Err e => Err e | UB => UB | Panic => Panic | DebugAssert => DebugAssert | OutOfFuel => OutOfFuel
+  end.
+
+Lemma notcp_eq std udp tcp : query_raw_impl std 2 udp tcp = ([EvUdpExchange], strip_flags udp).
+Proof.
+  destruct std; unfold query_raw_impl, std_udp_first, async_udp_first, std_tcp_allowed, async_tcp_allowed,
+    std_tc_fallback, async_tc_fallback; change (2 =? 2) with true; cbn [negb];
+    destruct udp as [[d fl]| | | | |]; cbn; rewrite ?Bool.andb_false_r; reflexivity.
+Qed.
+Lemma tcponly_eq std udp tcp : query_raw_impl std 1 udp tcp = ([EvTcpExchange], tcp).
+Proof. destruct std; reflexivity. Qed.
+Lemma default_eq std d fl tcp :
+  query_raw_impl std 0 (Ok (d, fl)) tcp =
+  if flag_tc fl then ([EvUdpExchange; EvTcpExchange], tcp) else ([EvUdpExchange], Ok d).
+Proof.
+  destruct std; unfold query_raw_impl, std_udp_first, async_udp_first, std_tcp_allowed, async_tcp_allowed,
+    std_tc_fallback, async_tc_fallback; change (0 =? 2) with false; cbn [negb]; rewrite Bool.andb_true_r; reflexivity.
+Qed.
+
 Theorem strategy_honoured std udp tcp :
-  (* UDP-only: no TCP exchange is ever started; a truncated answer is returned as it is *)
+  (* UDP-only: no TCP exchange is ever started; the accepted answer is returned as it is, truncated or not *)
   (~ In EvTcpExchange (fst (query_raw_impl std 2 udp tcp)) /\
    forall d fl, udp = Ok (d, fl) -> snd (query_raw_impl std 2 udp tcp) = Ok d) /\
   (* TCP-only: no UDP exchange *)
@@ -105,15 +125,11 @@ Theorem strategy_honoured std udp tcp :
      (flag_tc fl = true -> query_raw_impl std 0 udp tcp = ([EvUdpExchange; EvTcpExchange], tcp)) /\
      (flag_tc fl = false -> query_raw_impl std 0 udp tcp = ([EvUdpExchange], Ok d))).
 Proof.
-  destruct std; unfold query_raw_impl; cbn; repeat split.
-  - destruct udp as [[d fl]| | | | |]; cbn; try (intros [H|[]]; discriminate). rewrite Bool.andb_false_r. cbn. intros [H|[]]; discriminate.
-  - intros d fl ->. rewrite Bool.andb_false_r. reflexivity.
-  - intros -> Htc. rewrite Htc. reflexivity.
-  - intros -> Htc. rewrite Htc. reflexivity.
-  - destruct udp as [[d fl]| | | | |]; cbn; try (intros [H|[]]; discriminate). rewrite Bool.andb_false_r. cbn. intros [H|[]]; discriminate.
-  - intros d fl ->. rewrite Bool.andb_false_r. reflexivity.
-  - intros -> Htc. rewrite Htc. reflexivity.
-  - intros -> Htc. rewrite Htc. reflexivity.
+  rewrite notcp_eq, tcponly_eq. repeat split.
+  - cbn. intros [H|[]]; discriminate.
+  - intros d fl ->. reflexivity.
+  - subst udp. rewrite default_eq. intro H; rewrite H. reflexivity.
+  - subst udp. rewrite default_eq. intro H0; rewrite H0. reflexivity.
 Qed.
 
 (* ---------------------------------------------------------------- C14: framing *)
@@ -142,13 +158,19 @@ Theorem tcp_exchange_segmentation_independent std segs segs' buf_len :
 Proof.
   intro Hc. unfold tcp_exchange.
   pose proof (read_exact_spec 2 segs) as H1. pose proof (read_exact_spec 2 segs') as H2. rewrite <- Hc in H2.
-  destruct (read_exact 2 segs) as [[p r]|], (read_exact 2 segs') as [[p' r']|]; try lia; [|reflexivity].
-  destruct H1 as (-> & _ & Hr). destruct H2 as (-> & _ & Hr').
-  destruct (if std then _ else _); [reflexivity|].
-  set (n := N.to_nat (be_val (firstn 2 (concat segs)) 0)).
-  pose proof (read_exact_spec n r) as H3. pose proof (read_exact_spec n r') as H4. rewrite Hr in H3. rewrite Hr' in H4.
-  destruct (read_exact n r) as [[b x]|], (read_exact n r') as [[b' x']|]; try lia; [|reflexivity].
-  destruct H3 as (-> & _). destruct H4 as (-> & _). reflexivity.
+  destruct (read_exact 2 segs) as [[p r]|], (read_exact 2 segs') as [[p' r']|].
+  - destruct H1 as (-> & _ & Hr). destruct H2 as (-> & _ & Hr').
+    destruct (if std then _ else _); [reflexivity|].
+    set (n := N.to_nat (be_val (firstn 2 (concat segs)) 0)).
+    pose proof (read_exact_spec n r) as H3. pose proof (read_exact_spec n r') as H4. rewrite Hr in H3. rewrite Hr' in H4.
+    destruct (read_exact n r) as [[b x]|], (read_exact n r') as [[b' x']|].
+    + destruct H3 as (-> & _). destruct H4 as (-> & _). reflexivity.
+    + exfalso. destruct H3 as (Hb & Hl & _). subst b. rewrite firstn_length in Hl. lia.
+    + exfalso. destruct H4 as (Hb & Hl & _). subst b'. rewrite firstn_length in Hl. lia.
+    + reflexivity.
+  - exfalso. destruct H1 as (Hp & Hl & _). subst p. rewrite firstn_length in Hl. lia.
+  - exfalso. destruct H2 as (Hp & Hl & _). subst p'. rewrite firstn_length in Hl. lia.
+  - reflexivity.
 Qed.
 
 (* what is returned: exactly the N announced bytes; a larger announcement than the buffer is
@@ -165,7 +187,7 @@ Theorem tcp_exchange_spec std segs buf_len :
 Proof.
   cbv zeta. unfold tcp_exchange.
   pose proof (read_exact_spec 2 segs) as H1.
-  destruct (read_exact 2 segs) as [[p r]|]; [|cbn; left; lia].
+  destruct (read_exact 2 segs) as [[p r]|]; [|unfold IO_EOF; left; lia].
   destruct H1 as (-> & Hl & Hr).
   assert (H2 : (2 <= length (concat segs))%nat) by (rewrite firstn_length in Hl; lia).
   assert (Htb : (if std then std_tcp_too_big (be_val (firstn 2 (concat segs)) 0) buf_len
@@ -176,31 +198,44 @@ Proof.
   - pose proof (read_exact_spec (N.to_nat (be_val (firstn 2 (concat segs)) 0)) r) as H3. rewrite Hr in H3.
     destruct (read_exact _ r) as [[b x]|].
     + destruct H3 as (-> & Hlb & _). repeat split; try assumption; try lia. unfold lenN. rewrite Hlb. lia.
-    + cbn. right. rewrite skipn_length in H3. lia.
+    + unfold IO_EOF. right. rewrite skipn_length in H3. lia.
 Qed.
 
 (* ---------------------------------------------------------------- C15: the armed timeouts *)
 (* every timeout the blocking client arms is positive and ends no later than the query lifetime *)
+Lemma lifetime_left_ok elapsed lifetime tau :
+  lifetime_left elapsed lifetime = Ok tau -> 0 < tau /\ elapsed + tau <= lifetime.
+Proof.
+  unfold lifetime_left, std_lifetime_over, std_lifetime_left_nounderflow, std_lifetime_left.
+  destruct (lifetime <=? elapsed) eqn:E; [discriminate|]. destruct (elapsed <=? lifetime) eqn:E2; [|discriminate].
+  intro H; inversion H; lia.
+Qed.
+Lemma tcp_read_timeout_ok elapsed lifetime tau :
+  tcp_read_timeout elapsed lifetime = Ok tau -> 0 < tau /\ elapsed + tau <= lifetime.
+Proof.
+  unfold tcp_read_timeout, std_tcp_read_over, std_tcp_read_timeout_nounderflow, std_tcp_read_timeout.
+  destruct (lifetime <=? elapsed) eqn:E; [discriminate|]. destruct (elapsed <=? lifetime) eqn:E2; [|discriminate].
+  intro H; inversion H; lia.
+Qed.
+Lemma query_left_ok elapsed lifetime qt attempt tau :
+  query_left elapsed lifetime qt attempt = Ok tau ->
+  0 < tau /\ elapsed + tau <= lifetime /\ attempt + tau <= match qt with Some t => t | None => lifetime end.
+Proof.
+  unfold query_left. destruct (lifetime_left elapsed lifetime) as [ll| | | | |] eqn:El; cbn [bind]; try discriminate.
+  apply lifetime_left_ok in El.
+  unfold std_attempt_over, std_query_left_nounderflow, std_query_left.
+  set (timeout := match qt with Some t => t | None => lifetime end).
+  destruct (timeout <=? attempt) eqn:E3; [discriminate|]. destruct (attempt <=? timeout) eqn:E4; [|discriminate].
+  intro H; inversion H. lia.
+Qed.
+
 Theorem armed_timeouts_within_lifetime elapsed lifetime qt attempt tau :
   (lifetime_left elapsed lifetime = Ok tau -> 0 < tau /\ elapsed + tau <= lifetime) /\
   (query_left elapsed lifetime qt attempt = Ok tau ->
      0 < tau /\ elapsed + tau <= lifetime /\ attempt + tau <= match qt with Some t => t | None => lifetime end) /\
   (tcp_read_timeout elapsed lifetime = Ok tau -> 0 < tau /\ elapsed + tau <= lifetime).
 Proof.
-  unfold lifetime_left, query_left, tcp_read_timeout,
-    std_lifetime_over, std_lifetime_left_nounderflow, std_lifetime_left, std_attempt_over, std_query_left_nounderflow,
-    std_query_left, std_tcp_read_over, std_tcp_read_timeout_nounderflow, std_tcp_read_timeout.
-  repeat split.
-  - destruct (lifetime <=? elapsed) eqn:E; [discriminate|]. destruct (elapsed <=? lifetime) eqn:E2; [|discriminate]. intro H; inversion H; lia.
-  - destruct (lifetime <=? elapsed) eqn:E; [discriminate|]. destruct (elapsed <=? lifetime) eqn:E2; [|discriminate]. intro H; inversion H; lia.
-  - destruct (lifetime <=? elapsed) eqn:E; [cbn; discriminate|]. destruct (elapsed <=? lifetime) eqn:E2; [|cbn; discriminate]. cbn [bind].
-    destruct (_ <=? attempt) eqn:E3; [discriminate|]. destruct (attempt <=? _) eqn:E4; [|discriminate]. intro H; inversion H. destruct qt; lia.
-  - destruct (lifetime <=? elapsed) eqn:E; [cbn; discriminate|]. destruct (elapsed <=? lifetime) eqn:E2; [|cbn; discriminate]. cbn [bind].
-    destruct (_ <=? attempt) eqn:E3; [discriminate|]. destruct (attempt <=? _) eqn:E4; [|discriminate]. intro H; inversion H. destruct qt; lia.
-  - destruct (lifetime <=? elapsed) eqn:E; [cbn; discriminate|]. destruct (elapsed <=? lifetime) eqn:E2; [|cbn; discriminate]. cbn [bind].
-    destruct (_ <=? attempt) eqn:E3; [discriminate|]. destruct (attempt <=? _) eqn:E4; [|discriminate]. intro H; inversion H. destruct qt; lia.
-  - destruct (lifetime <=? elapsed) eqn:E; [discriminate|]. destruct (elapsed <=? lifetime) eqn:E2; [|discriminate]. intro H; inversion H; lia.
-  - destruct (lifetime <=? elapsed) eqn:E; [discriminate|]. destruct (elapsed <=? lifetime) eqn:E2; [|discriminate]. intro H; inversion H; lia.
+  split; [apply lifetime_left_ok|split; [apply query_left_ok|apply tcp_read_timeout_ok]].
 Qed.
 
 (* once the lifetime is over nothing is armed any more: the call ends with Timeout; an attempt
@@ -210,8 +245,12 @@ Theorem no_action_after_deadline elapsed lifetime qt attempt :
   lifetime_left elapsed lifetime = Err Timeout /\ query_left elapsed lifetime qt attempt = Err Timeout /\
   tcp_read_timeout elapsed lifetime = Err Timeout.
 Proof.
-  intro H. unfold lifetime_left, query_left, tcp_read_timeout, std_lifetime_over, std_tcp_read_over.
-  destruct (lifetime <=? elapsed) eqn:E; [|lia]. repeat split; reflexivity.
+  intro H.
+  assert (Hl : lifetime_left elapsed lifetime = Err Timeout).
+  { unfold lifetime_left, std_lifetime_over. destruct (lifetime <=? elapsed) eqn:E; [reflexivity|lia]. }
+  split; [assumption|]. split.
+  - unfold query_left. rewrite Hl. reflexivity.
+  - unfold tcp_read_timeout, std_tcp_read_over. destruct (lifetime <=? elapsed) eqn:E; [reflexivity|lia].
 Qed.
 Theorem attempt_over_retries elapsed lifetime qt attempt :
   elapsed < lifetime -> match qt with Some t => t | None => lifetime end <= attempt ->
@@ -220,4 +259,38 @@ Proof.
   intros H1 H2. unfold query_left, lifetime_left, std_lifetime_over, std_lifetime_left_nounderflow, std_attempt_over.
   destruct (lifetime <=? elapsed) eqn:E; [lia|]. destruct (elapsed <=? lifetime) eqn:E2; [|lia]. cbn [bind].
   destruct (_ <=? attempt) eqn:E3; [reflexivity|]. destruct qt; lia.
+Qed.
+
+(* ---------------------------------------------------------------- history independence (C16) *)
+(* datagrams the filter rejects (late answers to earlier queries are such, unless they carry the
+   new id AND question) can be inserted anywhere in the delivery order without changing the result *)
+Theorem leftovers_ignored std id qname qtype qclass pre post junk :
+  Forall (fun x => accept_datagram std id qname qtype qclass x = Ok None) junk ->
+  udp_receive std id qname qtype qclass (pre ++ junk ++ post) = udp_receive std id qname qtype qclass (pre ++ post).
+Proof.
+  intros Hj. induction pre as [|x pre IH]; cbn [app udp_receive].
+  - induction Hj as [|j junk Hj1 Hj2 IHj]; [reflexivity|]. cbn [app udp_receive]. rewrite Hj1. exact IHj.
+  - destruct (accept_datagram std id qname qtype qclass x) as [[f|]| | | | |]; cbn [bind]; try reflexivity. exact IH.
+Qed.
+
+(* the receive loop is a function of (id, question, delivered datagrams) only: whichever earlier
+   queries the client served, the same deliveries give the same result.  (Stated as the signature
+   of udp_receive: it takes no client state; the netlab history stream checks that the four real
+   clients indeed behave as this function over whole query histories.) *)
+Theorem result_depends_on_own_exchange std id qname qtype qclass ds1 ds2 :
+  ds1 = ds2 -> udp_receive std id qname qtype qclass ds1 = udp_receive std id qname qtype qclass ds2.
+Proof. intros ->. reflexivity. Qed.
+
+(* a leftover is accepted only if it answers the NEW query: same id and same question *)
+Theorem leftover_accepted_only_if_matching std id qname qtype qclass pre d fl post :
+  udp_receive std id qname qtype qclass (pre ++ d :: post) = Ok (Some (d, fl)) ->
+  Forall (fun x => accept_datagram std id qname qtype qclass x = Ok None) pre ->
+  accept_datagram std id qname qtype qclass d = Ok (Some fl).
+Proof.
+  intros H Hpre. induction Hpre as [|x pre Hx Hp IH]; cbn [app udp_receive] in H.
+  - destruct (accept_datagram std id qname qtype qclass d) as [[f|]| | | | |] eqn:E; cbn [bind] in H; try discriminate.
+    + inversion H; subst; reflexivity.
+    + (* d rejected: the result would come from post; then it is some later datagram equal to d *)
+      apply udp_receive_first in H. destruct H as [p1 [p2 [_ [Ha _]]]]. rewrite E in Ha. discriminate.
+  - rewrite Hx in H. cbn [bind] in H. apply IH. exact H.
 Qed.
